@@ -329,6 +329,40 @@ func c07one(text string, g *c07gen) {
 			return
 		}
 	}
+	// decoding has no memory: each top-level value of this (already decoded, perhaps rejected) node tree decodes
+	// to what it decodes to in a freshly parsed tree
+	if n.Kind == yaml.DocumentNode && len(n.Content) == 1 && n.Content[0].Kind == yaml.MappingNode && len(n.Content[0].Content) <= 24 {
+		dec := func(nd *yaml.Node) string {
+			var out string
+			func() {
+				defer func() {
+					if x := recover(); x != nil {
+						out = fmt.Sprint("panic: ", x)
+					}
+				}()
+				v, err := ordered.DecodeYAML(nd)
+				if err != nil {
+					out = "error"
+				} else {
+					out = sx.String(anySexp(v))
+				}
+			}()
+			return out
+		}
+		rootA := n.Content[0]
+		for vi := 1; vi < len(rootA.Content); vi += 2 {
+			var fresh yaml.Node
+			if yaml.Unmarshal([]byte(text), &fresh) != nil || len(fresh.Content) != 1 || len(fresh.Content[0].Content) != len(rootA.Content) {
+				break
+			}
+			used, clean := dec(rootA.Content[vi]), dec(fresh.Content[0].Content[vi])
+			if used != clean {
+				oracleFail("C07", "decode-depends-on-history", c, fmt.Sprintf("the value of top-level key %q decodes to %s in a node tree that was decoded before (whole document: err=%v) and to %s in a freshly parsed tree", rootA.Content[vi-1].Value, used, r.err, clean))
+				return
+			}
+		}
+		stat("C07", "history-checked")
+	}
 	var obs sx.S = sx.L(sx.A("err"))
 	if r.err == nil {
 		if sharedPointers(r.v) {
